@@ -48,7 +48,9 @@ Definition prop_C16 (c : c16case) : bool :=
 (* the harness only performs legal insertions: links that do not form a consistent acyclic structure
    are reported, not skipped *)
 Definition check_C16 (c : c16case) : nat :=
-  if negb (valid_dag (c_g c)) then F_DISAGREE else
+  if negb (valid_dag (c_g c))
+  then F_DISAGREE + flag (negb (prop_C16 c)) F_PROPFAIL     (* edges = the children lists, as everywhere *)
+  else
   flag (negb (agree_C16 c)) F_DISAGREE + flag (negb (prop_C16 c)) F_PROPFAIL.
 
 (* ------------------------------------------------------------------------------------------- *)
@@ -130,3 +132,10 @@ Definition skip_C17 (c : iocase) : bool :=
 Definition check_C17 (c : iocase) : nat :=
   if skip_C17 c then F_DISAGREE else
   flag (negb (agree_C17 c)) F_DISAGREE + flag (negb (prop_C17 c)) F_PROPFAIL.
+
+(* ------------------------------------------------------------------------------------------- *)
+(* C16 with queries interleaved with construction: one snapshot (links as they stand + everything
+   the queries returned at that moment) per checkpoint, the last one after the final insertion.
+   Every snapshot is checked against the model run on the links of that moment. *)
+Definition check_C16s (snaps : list c16case) : nat :=
+  fold_right (fun c acc => Nat.lor (check_C16 c) acc) 0 snaps.
